@@ -424,6 +424,50 @@ func boolsToBitmap(bits []bool) []byte {
 	return out
 }
 
+// forgeBelow: to an honest proof add the claim "fk is present" one level below the honest query v
+// (same path down to that query's node) and one junk sibling hash at position at.
+// variant 0: fk leaves the victim's path right below its node (random tail), 1: fk differs from the
+// victim's key in the last bit only.
+func forgeBelow(r *rand.Rand, qk [][]byte, p *smt.Proof, x *tctx, v, at, variant int) ([][]byte, *smt.Proof) {
+	hq := p.Queries[v]
+	hb := bitmapBools(hq.Bitmap)
+	if len(hb)+1 >= 8*x.L || at > len(p.SiblingHashes) {
+		return nil, nil
+	}
+	fk := cp(hq.Key)
+	if variant == 0 {
+		setBit(fk, len(hb), !getBit(fk, len(hb)))
+		for b := len(hb) + 1; b < 8*x.L; b++ {
+			setBit(fk, b, r.Intn(2) == 0)
+		}
+	} else {
+		setBit(fk, 8*x.L-1, !getBit(fk, 8*x.L-1))
+	}
+	if _, present := x.model[string(fk)]; present {
+		return nil, nil
+	}
+	for _, k := range qk {
+		if string(k) == string(fk) {
+			return nil, nil
+		}
+	}
+	sib := append([]codec.Hex{}, p.SiblingHashes[:at]...)
+	sib = append(sib, randBytes(r, 32))
+	sib = append(sib, p.SiblingHashes[at:]...)
+	p.SiblingHashes = sib
+	p.Queries = append(p.Queries, &smt.QueryProof{Key: fk, Value: randBytes(r, 32), Bitmap: boolsToBitmap(append([]bool{true}, hb...))})
+	return append(qk, fk), p
+}
+
+func forgedBelow(name string, pos func(r *rand.Rand, n int) int) tamper {
+	return tamper{"forged-deeper-query-in-multi-query-proof:junk-sibling-" + name, func(r *rand.Rand, qk [][]byte, p *smt.Proof, x *tctx) ([][]byte, *smt.Proof) {
+		if len(p.Queries) < 2 {
+			return nil, nil
+		}
+		return forgeBelow(r, qk, p, x, r.Intn(len(p.Queries)), pos(r, len(p.SiblingHashes)), r.Intn(2))
+	}}
+}
+
 var tampers = []tamper{
 	// ---- a second, forged query one level below an honest one, fed with junk sibling hashes:
 	// its computed ancestor coincides with the honest query's node (two fields + siblings change)
@@ -462,6 +506,14 @@ var tampers = []tamper{
 		p.Queries = append(p.Queries, forged)
 		return append(qk, fk), p
 	}},
+	// ---- the same forgery inside a proof with several honest queries: one junk sibling hash at a
+	// chosen position (other honest queries may still wait on greater heights when the forged one
+	// is merged into its victim's path)
+	forgedBelow("first", func(r *rand.Rand, n int) int { return 0 }),
+	forgedBelow("second", func(r *rand.Rand, n int) int { return min(1, n) }),
+	forgedBelow("third", func(r *rand.Rand, n int) int { return min(2, n) }),
+	forgedBelow("random", func(r *rand.Rand, n int) int { return r.Intn(n + 1) }),
+	forgedBelow("last", func(r *rand.Rand, n int) int { return n }),
 	// ---- value
 	{"value-flip-bit", func(r *rand.Rand, qk [][]byte, p *smt.Proof, x *tctx) ([][]byte, *smt.Proof) {
 		i := pickQ(r, p, func(_ int, q *smt.QueryProof) bool { return len(q.Value) > 0 })
@@ -960,16 +1012,14 @@ func (s *state) checkProofs(t updater, rd smt.DBReader, nQueries, nTamper int) {
 		}
 		// --- tamperings
 		x := &tctx{L: s.L, model: s.model, pool: s.pool}
-		for ti := 0; ti < nTamper; ti++ {
-			tm := tampers[r.Intn(len(tampers))]
-			tq, tp := tm.f(r, cpAll(qk), cloneProof(honest), x)
+		judge := func(tm tamper, tq [][]byte, tp *smt.Proof) {
 			if tp == nil {
 				k.Count("tamper_not_applicable", 1)
-				continue
+				return
 			}
 			if proofEqual(tp, honest) && len(tq) == len(qk) && eqAll(tq, qk) {
 				k.Count("tamper_noop", 1)
-				continue
+				return
 			}
 			k.Count("tampered", 1)
 			shown := showProof(tp) // before Verify may touch it
@@ -1008,6 +1058,23 @@ func (s *state) checkProofs(t updater, rd smt.DBReader, nQueries, nTamper int) {
 					"tamper": tm.name, "queryKeys": hexAll(tq), "i": falseAt, "honest_queryKeys": hexAll(qk), "honest_proof": showProof(honest), "tampered_proof": shown})
 			default:
 				k.Count("tamper_accepted_claim_true:"+tm.name, 1)
+			}
+		}
+		for ti := 0; ti < nTamper; ti++ {
+			tm := tampers[r.Intn(len(tampers))]
+			tq, tp := tm.f(r, cpAll(qk), cloneProof(honest), x)
+			judge(tm, tq, tp)
+		}
+		// forgery sweep: the forged-below claim under every honest query, the junk sibling at every
+		// position (small proofs only; every fourth proof)
+		if len(honest.Queries) >= 2 && len(honest.Queries) <= 4 && len(honest.SiblingHashes) <= 16 && r.Intn(4) == 0 {
+			k.Count("forgery_sweeps", 1)
+			sw := tamper{name: "forged-deeper-query-in-multi-query-proof:sweep"}
+			for v := range honest.Queries {
+				for at := 0; at <= len(honest.SiblingHashes); at++ {
+					tq, tp := forgeBelow(r, cpAll(qk), cloneProof(honest), x, v, at, (v+at)%2)
+					judge(sw, tq, tp)
+				}
 			}
 		}
 	}
